@@ -15,6 +15,7 @@ it is here (paramiko missing, `connector.ParamikoConnector` does not exist).
 Usage: sshimpl.py --paramiko {0,1}    (line protocol: one case per line on stdin)
 """
 import contextlib
+import gc
 import pathlib
 import sys
 import types
@@ -306,10 +307,16 @@ def main():
     impl = Impl(wp)
     out = sys.stdout
     out.write("ready\n"); out.flush()
+    n = 0
     for line in sys.stdin:
         line = line.rstrip("\n")
         if not line:
             continue
+        n += 1
+        if n % 100 == 0:
+            # machine classes of past cases are garbage only through reference cycles; the abc
+            # machinery walks every live subclass on a negative isinstance()
+            gc.collect()
         try:
             r = impl.run(line)
         except BaseException as e:  # never die silently
